@@ -704,6 +704,10 @@ static void genSameValue() {
   doOp("claim 0"); doOp("run 2600");                                         // due 100 ms into the claim window: sent when it ends
   doOp("hbset 60000 100 -1"); doOp("t 59000"); doOp("poll"); doOp("t 2000"); doOp("poll");
   pastGrid(); doOp("hbset 4294967294 4294967295 -1"); doOp("poll");          // restore default = the interval in force
+  // (3) switched off (interval 0), then "keep interval" with a new offset - by the API and by a request over the bus: it stays off
+  doOp("hbset 0 0 -1"); doOp("t 2000"); doOp("poll");
+  doOp("hbset 4294967295 700 -1"); doOp("get"); doOp("t 3000"); doOp("poll"); doOp("t 1500"); doOp("poll");
+  doOp("hbset 0 0 -1"); doOp("gfreq 0 4294967295 70 0"); doOp("get"); doOp("t 3000"); doOp("poll"); doOp("t 1500"); doOp("poll");
   doOp("get"); doOp("m64");
 }
 
